@@ -9,7 +9,7 @@ import time
 from typing import Any, Callable, Dict, List, Optional
 
 from . import REPO, VERIF_DIR
-from .explore import NPROC, Stats, Violation, digest, jsonable
+from .explore import NPROC, Stats, Violation, digest, jsonable, watchdog_cut_short
 
 # runs against a scratch copy (VERIF_REPO, mutant evaluation) must not overwrite the real evidence
 _SCRATCH = os.environ.get("VERIF_SCRATCH_OUT") or (None if REPO == "/repo" else "/tmp/verif-scratch-out")
@@ -66,6 +66,10 @@ def validate_evidence(path: str) -> Optional[str]:
 def finish(prop: str, tier: str, seed: int, stats: Stats, t0: float, rule: str, assumptions: List[str],
            bounds: Dict[str, Any], technique: str) -> int:
     """Write evidence + replay files, print VIOLATION / KNOWN-FINDING lines, return the exit code."""
+    if watchdog_cut_short():
+        stats.caps.append("cut short: the code under test failed to terminate in a dozen executions; the executions still "
+                          "queued after that were not started")
+        stats.exhaustive = False
     findings = load_findings()
     new_violations: List[Violation] = []
     known_hits: Dict[str, int] = {}
